@@ -9,7 +9,9 @@ ID = "C10"
 RULE = ("case = generic SDE (Stratonovich, 4 noise types, drawn batch/state/noise sizes) x dyadic (t0, dt) x up to 64 "
         "(thorough 256) steps x 1..5 output times on the step grid x drawn loss weights (a drawn subset of output times, "
         "possibly without the last one, gets weight zero) x optionally resumed at an output time through extra=True / "
-        "extra_solver_state x optionally a loss that also uses the returned extra state (f, z) x entropy. "
+        "extra_solver_state (optionally after a first stage run under no_grad, so the resumed state and extras carry no autograd "
+        "history) x optionally a loss that also uses the returned extra state (f, z) x optionally an explicit adjoint_params "
+        "sub-list in a drawn order (only the listed tensors are compared) x entropy. "
         "Gradients of the loss w.r.t. y0 and every parameter from sdeint_adjoint(method='reversible_heun', "
         "adjoint_method='adjoint_reversible_heun') are compared with backprop through sdeint(method='reversible_heun'): "
         "global relative difference <= 1e-9 (per tensor, with an absolute floor of 1e-9 * largest gradient norm). "
@@ -39,7 +41,13 @@ def _case(draw, tier):
     return {"spec": spec, "t0": t0, "dt": dt, "cuts": cuts, "entropy": draw(st.integers(0, 2 ** 31 - 2)),
             "wseed": draw(st.integers(0, 2 ** 31 - 1)), "levy": draw(st.sampled_from(["none", "none", "space-time"])),
             "y0_grad": draw(st.sampled_from([True, True, False])), "mask": mask,
-            "resume_at": draw(st.sampled_from([None, None, 0, 1, 2])), "use_z": draw(st.sampled_from([False, False, True]))}
+            "resume_at": draw(st.sampled_from([None, None, 0, 1, 2])), "use_z": draw(st.sampled_from([False, False, True])),
+            # burn-in: the first stage runs under no_grad, so the state and extra solver state the second stage resumes from
+            # carry no autograd history (a cotangent on the *returned* extras must still be propagated)
+            "burn_in": draw(st.sampled_from([False, False, True])),
+            # explicit adjoint_params: None = default (all parameters), else (selection seed, keep mask seed): a drawn
+            # sub-list of the module's parameters in a drawn order (not a prefix of the module's own order in general)
+            "adjoint_params": draw(st.one_of(st.none(), st.none(), st.integers(0, 2 ** 20)))}
 
 
 def strategy(tier):
@@ -57,19 +65,38 @@ def run_case(case):
         sde = sdes.build_generic(spec)
         y0 = sdes.y0_for(spec).requires_grad_(case["y0_grad"])
         bm = sdes.make_bm(torchsde, spec, ts[0], ts[-1], case["entropy"], levy=case["levy"])
+        selected = None
+        if case.get("adjoint_params") is not None:
+            import random
+            rnd = random.Random(case["adjoint_params"])
+            named_all = [(n_, p_) for n_, p_ in sde.named_parameters()]
+            rnd.shuffle(named_all)
+            selected = named_all[:rnd.randint(1, len(named_all))]
+
         def solve(y_start, ts_part, extra_state):
             kw = {} if extra_state is None else {"extra_solver_state": extra_state}
             if adjoint:
+                if selected is not None:
+                    kw["adjoint_params"] = [p_ for _, p_ in selected]
                 return torchsde.sdeint_adjoint(sde, y_start, ts_part, bm=bm, method="reversible_heun",
                                                adjoint_method="adjoint_reversible_heun", dt=dt, extra=True, **kw)
             return torchsde.sdeint(sde, y_start, ts_part, bm=bm, method="reversible_heun", dt=dt, extra=True, **kw)
 
         r = case.get("resume_at")
+        burn = False
         if r is not None and len(ts) >= 3:
             k = 1 + r % (len(ts) - 2)               # resume at an interior output time (on the step grid)
-            ys1, extra1 = solve(y0, ts[:k + 1], None)
-            ys2, extra = solve(ys1[-1], ts[k:], extra1)
-            ys = torch.cat([ys1, ys2[1:]], dim=0)
+            if case.get("burn_in"):
+                burn = True
+                with torch.no_grad():
+                    ys1, extra1 = solve(y0, ts[:k + 1], None)
+                y0 = ys1[-1].clone().requires_grad_(case["y0_grad"])     # the differentiable solve starts here
+                ys2, extra = solve(y0, ts[k:], extra1)
+                ys = torch.cat([ys1[:-1], ys2], dim=0)
+            else:
+                ys1, extra1 = solve(y0, ts[:k + 1], None)
+                ys2, extra = solve(ys1[-1], ts[k:], extra1)
+                ys = torch.cat([ys1, ys2[1:]], dim=0)
             resumed = True
         else:
             ys, extra = solve(y0, ts, None)
@@ -82,7 +109,11 @@ def run_case(case):
         if case.get("use_z"):
             loss = loss + (extra[2] * wz).sum() + 0.3 * (extra[0] * wz).sum()
         loss.backward()
-        named = [("y0", y0.grad)] + [(n_, p.grad) for n_, p in sde.named_parameters()]
+        if selected is None:
+            named = [("y0", y0.grad)] + [(n_, p.grad) for n_, p in sde.named_parameters()]
+        else:
+            # only the tensors asked for are compared (what the others receive is C09's bookkeeping clause)
+            named = [("y0", y0.grad)] + sorted(((n_, p_.grad) for n_, p_ in selected), key=lambda kv: kv[0])
         grads.append((ys.detach(), named))
     (ys_a, ga), (ys_b, gb) = grads
     sig = {"noise_type": spec["noise_type"]}
@@ -123,5 +154,9 @@ def run_case(case):
         labels.append("resumed_from_extra_state")
     if case.get("use_z"):
         labels.append("loss_uses_returned_extra_state")
+    if burn:
+        labels.append("resumed_after_no_grad_burn_in")
+    if case.get("adjoint_params") is not None:
+        labels.append("explicit_adjoint_params_sublist")
     return Result(nontrivial=n >= 4 and len(case["cuts"]) >= 2, labels=labels, checks=checks,
                   metrics={"grad_relerr": worst, "steps": n})
